@@ -1,5 +1,5 @@
 (** C05 — compact changes nothing a reader can see. *)
-From Ergo Require Import Base Text Events Replay Ready Compact Cmd View TextFacts CompactCore CompactProof.
+From Ergo Require Import Base Text Events Replay Ready Compact Cmd Input View TextFacts CompactCore CompactProof Reach ReachStamps.
 Local Open Scope string_scope.
 Local Open Scope list_scope.
 
@@ -23,6 +23,17 @@ Theorem C05_compact_preserves : forall es g,
           /\ graph_wf g'.
 Proof. exact compact_preserves_log. Qed.
 Print Assumptions C05_compact_preserves.
+
+(** For every history ergo can produce — any commands, any input modes, any id stream and file system
+    — when the wall clock never reads the zero time and never runs backwards between commands
+    ([ReachM]: each command's clock reading is not before any stamp already in the log). *)
+Theorem C05_every_cli_history : forall log g,
+  ReachM log -> replay_raw log = Ok g ->
+  exists g', replay_raw (compact_events (finalize g)) = Ok g' /\ obs (finalize g') = obs (finalize g) /\ g_tombs g' = ∅
+          /\ dom (g_tasks g') = dom (g_tasks g) /\ g_deps g' = g_deps g
+          /\ prune_targets (finalize g') = prune_targets (finalize g) /\ graph_wf g'.
+Proof. exact reachm_compact_preserves. Qed.
+Print Assumptions C05_every_cli_history.
 
 (** Without ANY clock hypothesis everything but [updated_at] is preserved. *)
 Theorem C05_all_but_updated_at : forall es g,
